@@ -865,80 +865,127 @@ func checkRecursion(c *core.Ctx, rule string, ra *recAnalysis) {
 		// decide guards for non-descending edges inside the component
 		for _, f := range comp {
 			for _, e := range ra.edges[f] {
-				if set[e.to] && e.class != "descending" && e.guard == "" {
+				if set[e.to] && e.guard == "" {
 					e.guard = ra.guardOf(e, set)
 				}
 			}
 		}
 	}
-	rest := ra.sccs(func(e *recEdge) bool { return e.class != "descending" && e.guard == "" })
-	reported := map[string]bool{}
-	for _, comp := range rest {
-		set := map[*ssa.Function]bool{}
-		var names []string
-		for _, f := range comp {
-			set[f] = true
-			names = append(names, core.FnName(f))
+	// (1) unguarded re-entry edges must not lie on any cycle of the graph without guarded edges: a re-entry resets the
+	//     structural measure, so descending edges elsewhere on the cycle do not help.
+	reach := func(from, to *ssa.Function, keep func(e *recEdge) bool) bool {
+		seen := map[*ssa.Function]bool{}
+		var dfs func(u *ssa.Function) bool
+		dfs = func(u *ssa.Function) bool {
+			if u == to {
+				return true
+			}
+			if seen[u] {
+				return false
+			}
+			seen[u] = true
+			for _, e := range ra.edges[u] {
+				if keep(e) && dfs(e.to) {
+					return true
+				}
+			}
+			return false
 		}
-		// the offending edges: re-entry first
-		var offending []*recEdge
-		for _, f := range comp {
+		return dfs(from)
+	}
+	unguarded := func(e *recEdge) bool { return e.guard == "" }
+	reported := map[string]bool{}
+	badComp := map[*ssa.Function]bool{}
+	var reEntries []*recEdge
+	for _, f := range ra.funcs {
+		for _, e := range ra.edges[f] {
+			if e.class == "re-entry" && e.guard == "" {
+				reEntries = append(reEntries, e)
+			}
+		}
+	}
+	sort.Slice(reEntries, func(i, j int) bool {
+		return core.FnName(reEntries[i].from)+core.FnName(reEntries[i].to) < core.FnName(reEntries[j].from)+core.FnName(reEntries[j].to)
+	})
+	// report one cycle-closing edge per cycle family: prefer edges whose target is entered from outside the component
+	onCycle := map[*recEdge]bool{}
+	for _, e := range reEntries {
+		if reach(e.to, e.from, unguarded) {
+			onCycle[e] = true
+		}
+	}
+	// among the re-entry edges on cycles, keep those that are back edges of a DFS from the externally entered functions
+	back := map[*recEdge]bool{}
+	{
+		compOf := map[*ssa.Function]bool{}
+		for e := range onCycle {
+			compOf[e.from], compOf[e.to] = true, true
+		}
+		var entries []*ssa.Function
+		for _, f := range ra.funcs {
 			for _, e := range ra.edges[f] {
-				if set[e.to] && e.class != "descending" && e.guard == "" {
-					offending = append(offending, e)
+				if !compOf[f] && compOf[e.to] {
+					entries = append(entries, e.to)
 				}
 			}
 		}
-		sort.Slice(offending, func(i, j int) bool {
-			ri, rj := offending[i].class == "re-entry", offending[j].class == "re-entry"
-			if ri != rj {
-				return ri
-			}
-			return core.FnName(offending[i].from)+core.FnName(offending[i].to) < core.FnName(offending[j].from)+core.FnName(offending[j].to)
-		})
-		// report only the cycle-closing edges: back edges of a DFS that starts at the functions entered from outside
-		back := map[*recEdge]bool{}
-		{
-			var entries []*ssa.Function
-			for _, f := range ra.funcs {
-				if set[f] {
+		sort.Slice(entries, func(i, j int) bool { return entries[i].String() < entries[j].String() })
+		var rest []*ssa.Function
+		for f := range compOf {
+			rest = append(rest, f)
+		}
+		sort.Slice(rest, func(i, j int) bool { return rest[i].String() < rest[j].String() })
+		entries = append(entries, rest...)
+		color := map[*ssa.Function]int{}
+		var dfs func(u *ssa.Function)
+		dfs = func(u *ssa.Function) {
+			color[u] = 1
+			es := append([]*recEdge{}, ra.edges[u]...)
+			sort.SliceStable(es, func(i, j int) bool { return es[i].to.String() < es[j].to.String() })
+			for _, e := range es {
+				if e.guard != "" {
 					continue
 				}
-				for _, e := range ra.edges[f] {
-					if set[e.to] {
-						entries = append(entries, e.to)
-					}
+				switch color[e.to] {
+				case 1:
+					back[e] = true
+				case 0:
+					dfs(e.to)
 				}
 			}
-			sort.Slice(entries, func(i, j int) bool { return entries[i].String() < entries[j].String() })
-			entries = append(entries, comp...)
-			color := map[*ssa.Function]int{}
-			var dfs func(u *ssa.Function)
-			dfs = func(u *ssa.Function) {
-				color[u] = 1
-				es := append([]*recEdge{}, ra.edges[u]...)
-				sort.SliceStable(es, func(i, j int) bool { return es[i].to.String() < es[j].to.String() })
-				for _, e := range es {
-					if !set[e.to] || e.class == "descending" || e.guard != "" {
-						continue
-					}
-					switch color[e.to] {
-					case 1:
-						back[e] = true
-					case 0:
-						dfs(e.to)
-					}
-				}
-				color[u] = 2
-			}
-			for _, en := range entries {
-				if color[en] == 0 {
-					dfs(en)
-				}
+			color[u] = 2
+		}
+		for _, en := range entries {
+			if color[en] == 0 {
+				dfs(en)
 			}
 		}
-		for _, e := range offending {
-			if !back[e] {
+	}
+	anyBackReported := false
+	for _, e := range reEntries {
+		if !onCycle[e] {
+			continue
+		}
+		badComp[e.from], badComp[e.to] = true, true
+		if !back[e] {
+			continue
+		}
+		anyBackReported = true
+		key := core.FnName(e.from) + " -> " + core.FnName(e.to)
+		if reported[key] {
+			continue
+		}
+		reported[key] = true
+		pos := token.NoPos
+		if e.site != nil {
+			pos = e.site.Pos()
+		}
+		c.Report(rule, key, pos, fmt.Sprintf("unbounded recursion: %s re-enters %s with a value that is not a sub-tree of its own argument (map lookup, fresh parse, or no AST argument) and no depth/visited guard dominates the call or the callee's recursive calls", core.FnName(e.from), core.FnName(e.to)))
+	}
+	if !anyBackReported {
+		// cycles whose closing edge is not itself a re-entry: report the re-entry edges on them
+		for _, e := range reEntries {
+			if !onCycle[e] {
 				continue
 			}
 			key := core.FnName(e.from) + " -> " + core.FnName(e.to)
@@ -950,22 +997,41 @@ func checkRecursion(c *core.Ctx, rule string, ra *recAnalysis) {
 			if e.site != nil {
 				pos = e.site.Pos()
 			}
-			var wit []string
-			for _, n := range names {
-				wit = append(wit, "in component: "+n)
-			}
-			if len(wit) > 10 {
-				wit = append(wit[:10], fmt.Sprintf("… %d functions in the component", len(names)))
-			}
-			c.Report(rule, key, pos, fmt.Sprintf("unbounded recursion: %s re-enters %s with a value that is not a sub-tree of its own argument (map lookup, fresh parse, or no AST argument) and no depth/visited guard dominates the call", core.FnName(e.from), core.FnName(e.to)), wit...)
+			c.Report(rule, key, pos, fmt.Sprintf("unbounded recursion: %s re-enters %s with a value that is not a sub-tree of its own argument (map lookup, fresh parse, or no AST argument) and the cycle back to it has no depth/visited guard", core.FnName(e.from), core.FnName(e.to)))
 		}
+	}
+	// (2) cycles made only of "same" edges (no descent at all)
+	for _, comp := range ra.sccs(func(e *recEdge) bool { return e.class == "same" && e.guard == "" }) {
+		var names []string
+		for _, f := range comp {
+			names = append(names, core.FnName(f))
+			badComp[f] = true
+		}
+		key := "same-cycle:" + strings.Join(names, ",")
+		c.Report(rule, key, comp[0].Pos(), "recursion that passes its argument on unchanged and never descends: "+strings.Join(names, " -> "))
 	}
 	// discharged: every component of the full graph whose cycles are broken
 	for _, comp := range all {
 		desc, guarded := 0, 0
 		set := map[*ssa.Function]bool{}
+		isBad := false
 		for _, f := range comp {
 			set[f] = true
+			if badComp[f] {
+				isBad = true
+			}
+		}
+		if isBad && os.Getenv("FV_DEBUG_REC") != "" {
+			for _, f := range comp {
+				for _, e := range ra.edges[f] {
+					if set[e.to] {
+						fmt.Fprintf(os.Stderr, "BADEDGE %s -> %s class=%s guard=%q\n", core.FnName(e.from), core.FnName(e.to), e.class, e.guard)
+					}
+				}
+			}
+		}
+		if isBad {
+			continue
 		}
 		var gs []string
 		for _, f := range comp {
